@@ -72,6 +72,9 @@ func (t *TCP) UnmarshalBinary(data []byte) error {
 	if len(data) > 20 {
 		t.Data = make([]byte, (len(data) - 20))
 		copy(t.Data, data[20:])
+	} else {
+		// no payload: a used value must not keep the payload of an earlier segment
+		t.Data = t.Data[:0]
 	}
 
 	return nil
